@@ -148,7 +148,7 @@ class SimA(SimBase):
         self.client_gone_early = False
         kw = dict(server_kwargs or {})
         kw.setdefault('logger', QUIET)
-        self.server = engineio.AsyncServer(async_mode='asgi', **kw)
+        self.server = engineio.AsyncServer(async_mode=self.ASYNC_MODE, **kw)
         if not websocket_available:
             self.server._async = dict(self.server._async)
             self.server._async['websocket'] = None
@@ -203,6 +203,12 @@ class SimA(SimBase):
                 self.true_reason.setdefault(args[0], args[1])
             return real_trigger(event, *args, **kwargs)
         self.server._trigger_event = spy_trigger
+        self._make_app(app_kwargs)
+
+    ASYNC_MODE = 'asgi'
+
+    def _make_app(self, app_kwargs):
+        import engineio
         self.app = engineio.ASGIApp(self.server, **(app_kwargs or {}))
 
     @property
